@@ -80,7 +80,10 @@ def pop (cfg : Cfg) (lt : α → α → Bool) (h : H α) (i : Nat) : H α × α 
     let h2 := h1.report i
     let h3 : H α := { h2 with data := h2.data.take n }
     let (h4, j) := pushDown cfg lt h3.len h3 i
-    if cfg.popSiftsUp && j = i then ((pushUp cfg lt (i + 1) h4 i).1, out) else (h4, out)
+    -- hypothetical repair of F2 (`popSiftsUp`; false for the pinned source): sift up if the element
+    -- did not move down.  The call is guarded by `i < n`: when the last slot was removed there is no
+    -- element at `i` (an unguarded `q.pushUp(i)` panics in Go with index out of range).
+    if cfg.popSiftsUp && (j = i && i < h3.len) then ((pushUp cfg lt (i + 1) h4 i).1, out) else (h4, out)
 
 def newWithData (cfg : Cfg) (lt : α → α → Bool) (data : List α) : H α :=
   let h : H α := { data := data }
